@@ -363,7 +363,7 @@ func mjpegCorpus(c *corr.Ctx) {
 	}
 	pkts = append(pkts, pk(seq, true, 0, 0, 50, []byte{1}), pk(seq+1, true, 1, 0, 50, []byte{2}), pk(seq+2, true, 0, 63, 50, nil), pk(seq+3, true, 0, 64, 50, []byte{1, 2}))
 	cu.HostileStream(c, Mjpeg, inst, pkts, true, "mjpeg-corpus-qfactor", "tables from the Q factor, short images")
-	// fixed cfdb263: header-only following fragments (offset = bytes collected, no data)
+	// fixed c91360e: header-only following fragments (offset = bytes collected, no data)
 	pkts = []*rtp.Packet{pk(0, false, 0, 1, 50, []byte{0xAA})}
 	for i := 1; i <= 2000; i++ {
 		pkts = append(pkts, pk(uint16(i), false, 1, 1, 50, nil))
